@@ -213,9 +213,42 @@ class Program:
     def _index(self):
         for m in self.modules.values():
             self._index_body(m, m.tree.body, guarded=False)
+        self._canonicalise_reexports()
         for c in self.classes.values():
             for b in c.node.bases:
                 c.bases.append(self.resolve_expr_static(c.mod, b))
+
+    def _canonicalise_reexports(self):
+        """a function or class that lives in a private module (leading underscore) and is
+        re-exported under the same name by a public module is known by its public name
+        (`authentication.verify_signable` stays that when its body moves to `_verify.py`): rules,
+        call events and sites keep referring to the documented location"""
+        renames = {}
+        for m in self.modules.values():
+            if m.short.startswith("_"):
+                continue
+            for bound, imp in m.imports.items():
+                if imp[0] != "from" or imp[2] != bound:
+                    continue
+                src = self.modules.get(imp[1])
+                if src is None or not src.short.startswith("_") or src.short.startswith("__"):
+                    continue
+                if bound in src.funcs or bound in src.classes:
+                    renames.setdefault((src.short, bound), m.short)
+        for (src_short, name), pub_short in renames.items():
+            old_prefix = src_short + "." + name
+            new_prefix = pub_short + "." + name
+            if new_prefix in self.funcs or new_prefix in self.classes:
+                continue
+            for q in [q for q in self.funcs if q == old_prefix or q.startswith(old_prefix + ".")]:
+                fi = self.funcs[q]
+                fi.qualname = new_prefix + q[len(old_prefix):]
+                fi.defined_as = q
+                self.funcs[fi.qualname] = fi
+            for q in [q for q in self.classes if q == old_prefix]:
+                ci = self.classes[q]
+                ci.qualname = new_prefix
+                self.classes[new_prefix] = ci
 
     def _index_body(self, m, body, guarded):
         for n in body:
